@@ -173,7 +173,47 @@ def impl_gen(req):
             "stage": g.stage, "outs": outs, "final": final}
 
 
-HANDLERS = {"permute": impl_permute, "convert": impl_convert, "gen": impl_gen}
+BELL_NAMES = "1234567890ETABCD"     # (the harness's own table: the generator of inputs, not the code under test)
+
+
+def rt_text(blocks):
+    """The notation of the round-trip theorem written out (mirrors `RoundTrip.textOf`)."""
+    out = []
+    for b in blocks:
+        s = b["pre"]
+        prev = False
+        for t in b["toks"]:
+            if t[0] == "p":
+                s += ("." if prev else "") + "".join(BELL_NAMES[p - 1] for p in t[1])
+                prev = True
+            else:
+                s += "." * t[1] + t[0] + "." * t[2]
+                prev = False
+        out.append(s)
+    return ",".join(out)
+
+
+def rt_denote(blocks):
+    multi = len(blocks) > 1
+    out = []
+    for b in blocks:
+        chs = [list(t[1]) if t[0] == "p" else [] for t in b["toks"]]
+        sym = (b["pre"] != "+") if multi else (b["pre"] == "&")
+        out += chs + (list(reversed(chs[:-1])) if sym else [])
+    return out
+
+
+def impl_roundtrip(req):
+    """The real `convert_pn` on the written notation."""
+    text = rt_text(req["blocks"])
+    try:
+        conv = [list(ch) for ch in helpers.convert_pn(text)]
+    except ValueError:
+        conv = None
+    return {"text": text, "denote": conv}
+
+
+HANDLERS = {"permute": impl_permute, "convert": impl_convert, "gen": impl_gen, "roundtrip": impl_roundtrip}
 
 
 def run(req):
